@@ -30,18 +30,19 @@ def build(c):
     files = {}
     steps = {'a': {'kind': 'plugin', 'pstep': 'work', 'fields': {'input': tmap({'id': lit('a')})}}}
     l2, l3 = c['_l2'], c['_l3']
+    sp = (lambda p: './' + p) if c.get('spelling') == 'dot' else (lambda p: p)     # how references are spelled
     if c['depth'] >= 3:
         files[l3] = leaf_wf()
-        files[l2] = mid_wf(l3)
+        files[l2] = mid_wf(sp(l3))
     elif c['depth'] == 2:
         files[l2] = leaf_wf()
     if c['depth'] >= 2:
-        steps['loop'] = {'kind': 'foreach', 'workflow': l2, 'fields': {'items': lit([{'id': 'i0'}])}}
+        steps['loop'] = {'kind': 'foreach', 'workflow': sp(l2), 'fields': {'items': lit([{'id': 'i0'}])}}
     if c['shared']:
         files['shared.yaml'] = leaf_wf()
-        steps['sh1'] = {'kind': 'foreach', 'workflow': 'shared.yaml', 'fields': {'items': lit([{'id': 's0'}])}}
+        steps['sh1'] = {'kind': 'foreach', 'workflow': sp('shared.yaml'), 'fields': {'items': lit([{'id': 's0'}])}}
         if c['depth'] >= 3:
-            files[l2]['steps']['sh2'] = {'kind': 'foreach', 'workflow': 'shared.yaml', 'fields': {'items': lit([{'id': 's1'}])}}
+            files[l2]['steps']['sh2'] = {'kind': 'foreach', 'workflow': sp('shared.yaml'), 'fields': {'items': lit([{'id': 's1'}])}}
     wf = {'steps': steps,
           'outputs': {'success': tmap({'v': ref('steps.a.outputs.success.tok')}), 'error': tmap({'v': ref('steps.a.outputs.error.reason')}),
                       'other': tmap({'v': ref('steps.a.outputs.alt.tok')})}}
@@ -156,7 +157,7 @@ def run(ctx):
         j = json.loads(m.group(1).encode().decode('unicode_escape'))
         j['c']['_l2'], j['c']['_l3'] = j['l2'], j['l3']
         confs.append((j['c'], j['id'], j['flag'], j['exit']))
-    if rc != 0 or len(confs) != 756:
+    if rc != 0 or len(confs) != 1458:
         ctx.inconclusive('FileCache.tla failed: ' + out[-1200:])
         return
     st = vlib.tlc_stats(out)
@@ -167,8 +168,8 @@ def run(ctx):
         rng.shuffle(confs)
         cls = {}
         for x in confs:
-            cls.setdefault((x[0]['depth'], x[0]['layout']), []).append(x)
-        confs = [x for k in sorted(cls) for x in cls[k][:6]]
+            cls.setdefault((x[0]['depth'], x[0]['layout'], x[0]['spelling']), []).append(x)
+        confs = [x for k in sorted(cls) for x in cls[k][:4]]
     binary = ctx.binary()
     scs, direct, meta = [], [], []
     for k, (c, wid, wflag, wexit) in enumerate(confs):
@@ -204,13 +205,16 @@ def run(ctx):
         scs.append(sc)
         # direct execution of the same text: prepare + Execute with an in-memory context
         d = {'files': {n: vlib.render_workflow(w) for n, w in files.items()}, 'main': 'workflow.yaml', 'script': script, 'runs': [{'input': {}}], 'timeout_ms': 30000}
+        if c.get('spelling') == 'dot':
+            # the in-memory context of the direct execution is keyed by the name the reference uses
+            d['files'].update({'./' + n: t for n, t in list(d['files'].items()) if n != 'workflow.yaml'})
         direct.append(d)
         meta.append((c, wid, wflag, wexit))
     res_e = vlib.run_scenarios(binary, scs, ctx.work, prefix='e')
     res_d = vlib.run_scenarios(binary, direct, ctx.work, prefix='d')
     n = 0
     for (c, wid, wflag, wexit), re_, rd in zip(meta, res_e, res_d):
-        tag = 'depth=%d layout=%s shared=%s out=%s explicit=%s dir=%s cwd=%s' % (c['depth'], c['layout'], c['shared'], c['out'], c['explicit'], c['dir'], c['cwd'])
+        tag = 'depth=%d layout=%s shared=%s out=%s explicit=%s dir=%s cwd=%s spelling=%s' % (c['depth'], c['layout'], c['shared'], c['out'], c['explicit'], c['dir'], c['cwd'], c['spelling'])
         rp = {'kind': 'engine-scenario', 'how': 'verifh run <scenario> (engine mode, files on disk)', 'config': c}
         for r in (re_, rd):
             if r['result'] is None or r['code'] != 0:
@@ -243,6 +247,6 @@ def run(ctx):
             ctx.add('C20', 'error-flag-differs-from-specification', '%s: flag=%s want %s' % (tag, er['err_flag'], wflag), rp)
     ctx.level = 'exploration'
     ctx.cov(evaluations=2 * n, distinct_nontrivial=n,
-            rule='FileCache.tla enumerates all 756 configurations (nesting depth x directory layout of the nested files x shared sub-workflow x producible output x explicit schema/flag x abs/rel context dir x working directory) with expected id/flag; each tree is written to disk and run through engine.New/Parse/Run and, for comparison, prepared and executed directly',
+            rule='FileCache.tla enumerates all 1458 configurations (nesting depth x directory layout of the nested files x shared sub-workflow x producible output x explicit schema/flag x abs/rel context dir x working directory x spelling of the references) with expected id/flag; each tree is written to disk and run through engine.New/Parse/Run and, for comparison, prepared and executed directly',
             samples=[{'config': meta[0][0], 'expected_id': meta[0][1], 'expected_flag': meta[0][2]}])
     ctx.assumptions = ['the command-line program is run with the scripted deployer registered through an overlaid init(); its default deployers (podman, docker, kubernetes, python) are not exercised']
